@@ -49,6 +49,9 @@ CLAIMED = {
  "C12": ("7/C12", "writer-reader agreement of layout constants and offsets (type-checked constants, array widths, slice bounds), ownership of the key bytes (use only as copy source), constant facts on type constants and bookkeeping names, shared key-space/bounds obligations of C01",
          "Structural necessary conditions only: encoder and decoders agree on header width, version position, type-byte and key offsets; key bytes are copied verbatim and decoded as sub-slices; only the version byte of the header varies; user < system; bookkeeping names non-empty and not starting with 0x00; bounds and bookkeeping keys use the same encoder. Injectivity/order preservation then follow from a stated lemma, not from the check.",
          "go/types+go/ssa; lemma: constant prefixing is injective and monotone"),
+ "C17": ("7/C17", "type facts from go/types (dynamic type at each registration implements the middleware's own override interface), option-list provenance, token-key provenance per registration, CFG edge-cut guard entailment on the token comparison and on the TLS configuration stores, constant facts (tls.ClientAuthType, grpc codes); thorough tier audits the pinned middleware source",
+         "Structural necessary conditions only: both auth interceptors installed; all four protected registrations implement the override, which returns the server's auth result, built from the service's own token key; acceptance only after whole-string equality, rejection with Unauthenticated; TLS server config requires+verifies client certs under CA/flag, ClientCAs from the CA file, peer verification on verified chains with exact CN / VerifyHostname, no InsecureSkipVerify, both servers wired from their own keys. crypto/tls and gRPC behaviour are assumed.",
+         "go/types+go/ssa; go-grpc-middleware interceptor contract (audited in thorough tier); crypto/tls semantics"),
 }
 PENDING_REASON = "rules designed (DESIGN.md section 7), check not built yet"
 checks=[]; na=[]
